@@ -240,7 +240,10 @@ func Judge(path, name string, h *History, ex Expectation, fresh []Ent) Verdict {
 	if v.MatchJ < 0 {
 		// classify
 		cls := "inconsistent-state"
-		if len(st) == 0 {
+		if len(ex.Boundaries) == 0 {
+			// the entries a successful Sync / Close covered are not all in the image: no state is acceptable
+			cls = "acknowledged-barrier-not-durable"
+		} else if len(st) == 0 {
 			cls = "empty-after-crash"
 		} else {
 			for j := 0; j < ex.Durable && ex.BaseUpTo+j <= len(ents); j++ {
